@@ -2,11 +2,15 @@ package entity
 
 import (
 	"bytes"
+	"compress/flate"
 	"compress/gzip"
 	"compress/zlib"
+	"encoding/binary"
 	"fmt"
+	"hash/adler32"
 	"net/http/httptest"
 	"strings"
+	"time"
 
 	restful "github.com/emicklei/go-restful/v3"
 
@@ -38,6 +42,9 @@ type Read struct {
 	Body    []byte // the request body
 	// Faithful: Body is exactly Written under the coding that CE names
 	Faithful bool
+	// Enc: which legal encoder wrote the coded body — zero value: Go's own compress/gzip and
+	// compress/zlib writers with their fixed headers; otherwise another legal header of the format
+	Enc EncOpt
 }
 
 // History is one case.
@@ -119,12 +126,124 @@ func zlibBytes(b []byte) []byte {
 	return buf.Bytes()
 }
 
+// EncOpt describes an encoder other than Go's own writers: any sender may have produced the body,
+// and the formats leave it choices that compress/zlib and compress/gzip never make.
+type EncOpt struct {
+	// zlib (RFC 1950): Window = log2 of the declared LZ77 window, 8..15 (CMF = (Window-8)<<4 | 8;
+	// Go's writer always declares 15, i.e. CMF 0x78), FLevel = the FLG.FLEVEL hint 0..3 (FCHECK
+	// follows from both), Flate = compress/flate level of the deflate data inside.  Window = 0:
+	// Go's zlib writer.
+	Window, FLevel, Flate int
+	// gzip (RFC 1952): optional header fields Go's writer leaves out unless told: file name,
+	// comment, extra field, modification time, OS byte
+	GzName, GzComment string
+	GzExtra           []byte
+	GzMTime           int64
+	GzOS              byte
+	Gz                bool
+}
+
+func (o EncOpt) String() string {
+	switch {
+	case o.Window != 0:
+		return fmt.Sprintf("hand-built zlib stream: window 2^%d (CMF %#02x), FLEVEL %d, flate level %d", o.Window, (o.Window-8)<<4|8, o.FLevel, o.Flate)
+	case o.Gz:
+		return fmt.Sprintf("gzip header with name %q, comment %q, %d extra bytes, mtime %d, OS %d", o.GzName, o.GzComment, len(o.GzExtra), o.GzMTime, o.GzOS)
+	}
+	return "Go's own writer"
+}
+
+// zlibBytesWith builds a zlib stream by hand: header for the chosen window and level hint, raw
+// deflate data from compress/flate, Adler-32 of the uncompressed data.  The declared window is kept
+// honest: when the payload is longer than the window, the data is written without back-references
+// (Huffman only), which is legal under every window size.
+func zlibBytesWith(b []byte, o EncOpt) []byte {
+	level := o.Flate
+	if len(b) > 1<<uint(o.Window) && level != flate.NoCompression {
+		level = flate.HuffmanOnly
+	}
+	cmf := byte((o.Window-8)<<4 | 8)
+	flg := byte(o.FLevel&3) << 6
+	if rem := (uint(cmf)<<8 | uint(flg)) % 31; rem != 0 {
+		flg += byte(31 - rem)
+	}
+	var buf bytes.Buffer
+	buf.Write([]byte{cmf, flg})
+	w, err := flate.NewWriter(&buf, level)
+	if err != nil {
+		panic(err)
+	}
+	w.Write(b)
+	w.Close()
+	var sum [4]byte
+	binary.BigEndian.PutUint32(sum[:], adler32.Checksum(b))
+	buf.Write(sum[:])
+	return buf.Bytes()
+}
+
+func gzipBytesWith(b []byte, level int, o EncOpt) []byte {
+	var buf bytes.Buffer
+	w, err := gzip.NewWriterLevel(&buf, level)
+	if err != nil {
+		panic(err)
+	}
+	w.Name, w.Comment, w.Extra, w.OS = o.GzName, o.GzComment, o.GzExtra, o.GzOS
+	if o.GzMTime != 0 {
+		w.ModTime = time.Unix(o.GzMTime, 0)
+	}
+	w.Write(b)
+	w.Close()
+	return buf.Bytes()
+}
+
+var flateLevels = []int{flate.DefaultCompression, flate.BestSpeed, flate.NoCompression, flate.HuffmanOnly, flate.BestCompression, 3, 6}
+
+// GenEnc draws the encoder of a coded body: in half of the cases Go's own writer, otherwise any
+// legal header the format allows.
+func GenEnc(r *rng.R, coding string) EncOpt {
+	var o EncOpt
+	if coding == "" || r.Chance(1, 2) {
+		return o
+	}
+	switch coding {
+	case "deflate":
+		o.Window = 8 + r.Intn(8)
+		o.FLevel = r.Intn(4)
+		o.Flate = flateLevels[r.Intn(len(flateLevels))]
+	case "gzip":
+		o.Gz = true
+		if r.Chance(1, 2) {
+			o.GzName = []string{"entity.json", "a", "body.xml", "r\u00e9sum\u00e9"}[r.Intn(4)]
+		}
+		if r.Chance(1, 3) {
+			o.GzComment = []string{"sent by a client", "{}", "<x/>"}[r.Intn(3)]
+		}
+		if r.Chance(1, 3) {
+			o.GzExtra = make([]byte, 1+r.Intn(40))
+			for i := range o.GzExtra {
+				o.GzExtra[i] = byte(r.U64())
+			}
+		}
+		if r.Chance(1, 2) {
+			o.GzMTime = int64(1 + r.Intn(1<<31-2))
+		}
+		o.GzOS = []byte{0, 3, 7, 11, 255}[r.Intn(5)]
+	}
+	return o
+}
+
 // Encode applies the actual coding.
-func Encode(coding string, level int, b []byte) []byte {
+func Encode(coding string, level int, o EncOpt, b []byte) []byte {
 	switch coding {
 	case "gzip":
+		if o.Gz {
+			return gzipBytesWith(b, level, o)
+		}
 		return gzipBytes(b, level)
 	case "deflate":
+		if o.Window != 0 {
+			return zlibBytesWith(b, o)
+		}
 		return zlibBytes(b)
 	}
 	return append([]byte{}, b...)
@@ -274,13 +393,14 @@ func GenRead(r *rng.R, extras bool) (Read, error) {
 	rd.Written, rd.BaseCT = append([]byte{}, w...), ct
 	rd.Coding = []string{"", "", "gzip", "gzip", "gzip", "deflate", "deflate"}[r.Intn(7)]
 	rd.Level = gzipLevels[r.Intn(len(gzipLevels))]
-	good := Encode(rd.Coding, rd.Level, rd.Written)
+	rd.Enc = GenEnc(r.Fork(0x454e43), rd.Coding)
+	good := Encode(rd.Coding, rd.Level, rd.Enc, rd.Written)
 	rd.Status = "good"
 	if r.Chance(2, 5) {
 		rd.Status = []string{"trunc", "trunc", "trailer", "trailer", "flip", "flip", "checksum", "magic", "stored-flip", "empty", "garbage", "extra", "member2"}[r.Intn(13)]
 		if rd.Status == "stored-flip" && rd.Coding == "gzip" {
 			rd.Level = gzip.NoCompression
-			good = Encode(rd.Coding, rd.Level, rd.Written)
+			good = Encode(rd.Coding, rd.Level, rd.Enc, rd.Written)
 		}
 	}
 	rd.Body = breakBody(r, rd.Status, good, rd.Written)
@@ -340,7 +460,8 @@ func GenHistory(r *rng.R, extras bool) (History, error) {
 		if gzipHeavy && rd.Coding != "gzip" && r.Chance(2, 3) {
 			// re-code as gzip, keeping the status
 			rd.Coding = "gzip"
-			good := Encode("gzip", rd.Level, rd.Written)
+			rd.Enc = GenEnc(r.Fork(0x454e43), "gzip")
+			good := Encode("gzip", rd.Level, rd.Enc, rd.Written)
 			rd.Body = breakBody(r, rd.Status, good, rd.Written)
 			if rd.CE == "" || rd.CE == "deflate" {
 				rd.CE = "gzip"
